@@ -36,6 +36,8 @@ type evalCtx struct {
 	// skolem: the expression is in a positive top-level position of a goal;
 	// forall is replaced by a fresh constant (declared in st, a scratch state)
 	skolem bool
+	// bound: SMT names of the quantified variables in scope (outer binders)
+	bound []string
 }
 
 func (c *evalCtx) fail(format string, a ...interface{}) {
@@ -398,6 +400,17 @@ func (c *evalCtx) selector(x *ast.SelectorExpr) tval {
 		c.assumeInv(res, ft)
 		return tval{res, ft}
 	}
+	if _, isI := t.Underlying().(*types.Interface); isI {
+		if gf, ok := c.r.v.spec.GhostFlds[c.r.v.structName(t)+"."+name]; ok {
+			ft := c.parseType(gf.Type)
+			bt, isT := base.V.(Term)
+			if !isT {
+				c.fail("ghost field of non-term")
+			}
+			loc := &Loc{Prefix: c.r.v.structName(t) + "." + name, Idx: []Term{bt}, Type: ft}
+			return tval{c.r.v.readLoc(c.st, c.cur, loc), ft}
+		}
+	}
 	if sv, ok := base.V.(*StructVal); ok {
 		ft, i, ok := c.fieldOf(t, name)
 		if !ok || i < 0 {
@@ -462,6 +475,12 @@ func (c *evalCtx) withHeap(h *HeapSnap) *evalCtx {
 	return &n
 }
 
+func (c *evalCtx) bindQ(name string, v tval, q string) *evalCtx {
+	n := c.bind(name, v)
+	n.bound = append(append([]string(nil), c.bound...), q)
+	return n
+}
+
 func (c *evalCtx) bind(name string, v tval) *evalCtx {
 	n := *c
 	n.vars = make(map[string]tval, len(c.vars)+1)
@@ -495,6 +514,7 @@ var builtinSmtFuns = map[string]*SmtFun{
 	"rank":  {Name: "rank", Args: []string{"Val"}, Ret: "Int"},
 	"isnan": {Name: "isnan", Args: []string{"Val"}, Ret: "Bool"},
 	"wfval": {Name: "wfval", Args: []string{"Val"}, Ret: "Bool"},
+	"dyntype":   {Name: "dyntype", Args: []string{"Int"}, Ret: "Int"},
 	"norm":      {Name: "norm", Args: []string{"Val"}, Ret: "Val"},
 	"normable":  {Name: "normable", Args: []string{"Val"}, Ret: "Bool"},
 	"supported": {Name: "supported", Args: []string{"Val"}, Ret: "Bool"},
@@ -582,10 +602,10 @@ func (c *evalCtx) call(x *ast.CallExpr) tval {
 		*c.st.fresh++
 		q := fmt.Sprintf("q_%s%d", name, *c.st.fresh)
 		bound := Term{S: q, Sort: SInt}
-		body := c.noSkolem().bind(name, tval{bound, tInt}).term(arg(3))
+		body := c.noSkolem().bindQ(name, tval{bound, tInt}, q).term(arg(3))
 		rng := And(Le(lo, bound), Lt(bound, hi))
 		if fname == "forall" {
-			pats := findPatterns(body.S, q, "(at ")
+			pats := findPatterns(body.S, q, "(at ", c.bound)
 			if len(pats) == 0 {
 				return tval{mk(SBool, "(forall ((%s Int)) (! %s :pattern ((trg %s))))", q, Imp(rng, And(mk(SBool, "(trg %s)", q), body)).S, q), tBool}
 			}
@@ -623,13 +643,13 @@ func (c *evalCtx) call(x *ast.CallExpr) tval {
 		*c.st.fresh++
 		q := fmt.Sprintf("q_%s%d", name, *c.st.fresh)
 		bound := Term{S: q, Sort: s}
-		body := c.noSkolem().bind(name, tval{bound, t}).term(arg(2))
+		body := c.noSkolem().bindQ(name, tval{bound, t}, q).term(arg(2))
 		var guard Term = BoolLit(true)
 		if _, _, isInt := intRange(t); isInt {
 			guard = inRange(bound, t)
 		}
 		if fname == "forallk" {
-			if pats := findPatterns(body.S, q, "(select "); len(pats) > 0 {
+			if pats := findPatterns(body.S, q, "(select ", c.bound); len(pats) > 0 {
 				var ps strings.Builder
 				for _, p := range pats {
 					ps.WriteString(" :pattern (" + p + ")")
@@ -814,7 +834,20 @@ func (c *evalCtx) goalParts(e ast.Expr) []goalPart {
 				}
 				conj = append(conj, e)
 			}
+			if call, ok := last.(*ast.CallExpr); ok {
+				if inl := c.inlinePred(call); inl != nil {
+					last = inl
+				}
+			}
 			flat(last)
+			if len(conj) == 1 {
+				if call, ok := conj[0].(*ast.CallExpr); ok {
+					if inl := c.inlinePred(call); inl != nil {
+						conj = nil
+						flat(inl)
+					}
+				}
+			}
 			if len(conj) > 1 {
 				var out []goalPart
 				for _, cj := range conj {
@@ -869,7 +902,30 @@ func (c *evalCtx) goalParts(e ast.Expr) []goalPart {
 
 // findPatterns returns the distinct subterms "(<head> G q)" of body in which G is a
 // ground term (mentions no bound variable): the natural triggers of a quantifier over q.
-func findPatterns(body, q, head string) []string {
+func findPatterns(body, q, head string, outer []string) []string {
+	// variables bound by enclosing quantifiers may occur in a trigger; variables
+	// bound deeper inside the body may not
+	mentionsInner := func(t string) bool {
+		for i := 0; i+2 <= len(t); i++ {
+			if t[i] == 'q' && t[i+1] == '_' && (i == 0 || t[i-1] == ' ' || t[i-1] == '(') {
+				j := i
+				for j < len(t) && t[j] != ' ' && t[j] != ')' {
+					j++
+				}
+				name := t[i:j]
+				ok := false
+				for _, o := range outer {
+					if o == name {
+						ok = true
+					}
+				}
+				if !ok {
+					return true
+				}
+			}
+		}
+		return false
+	}
 	var out []string
 	seen := map[string]bool{}
 	for i := 0; i+len(head) <= len(body); i++ {
@@ -908,7 +964,7 @@ func findPatterns(body, q, head string) []string {
 		if !strings.HasPrefix(rest, " "+q+")") {
 			continue
 		}
-		if strings.Contains(first, "q_") {
+		if mentionsInner(first) {
 			continue
 		}
 		pat := body[i : j+len(" "+q+")")]
@@ -918,4 +974,92 @@ func findPatterns(body, q, head string) []string {
 		}
 	}
 	return out
+}
+
+var inlineCounter int
+
+// inlinePred expands a predicate call syntactically (arguments substituted for the
+// parameters, bound variables of the body renamed apart).
+func (c *evalCtx) inlinePred(call *ast.CallExpr) ast.Expr {
+	p, ok := c.r.v.spec.Preds[exprString(call.Fun)]
+	if !ok || len(call.Args) != len(p.Params) {
+		return nil
+	}
+	body, err := parser.ParseExpr(p.Body)
+	if err != nil {
+		return nil
+	}
+	sub := map[string]ast.Expr{}
+	for i, pn := range p.Params {
+		sub[pn] = call.Args[i]
+	}
+	inlineCounter++
+	return substExpr(body, sub, fmt.Sprintf("_%d", inlineCounter))
+}
+
+// substExpr substitutes identifiers; binders (first argument of forall/forallk/exists) are renamed.
+func substExpr(e ast.Expr, sub map[string]ast.Expr, suffix string) ast.Expr {
+	switch x := e.(type) {
+	case *ast.Ident:
+		if r, ok := sub[x.Name]; ok {
+			return r
+		}
+		return x
+	case *ast.ParenExpr:
+		return &ast.ParenExpr{X: substExpr(x.X, sub, suffix)}
+	case *ast.UnaryExpr:
+		return &ast.UnaryExpr{Op: x.Op, X: substExpr(x.X, sub, suffix)}
+	case *ast.BinaryExpr:
+		return &ast.BinaryExpr{Op: x.Op, X: substExpr(x.X, sub, suffix), Y: substExpr(x.Y, sub, suffix)}
+	case *ast.StarExpr:
+		return &ast.StarExpr{X: substExpr(x.X, sub, suffix)}
+	case *ast.SelectorExpr:
+		return &ast.SelectorExpr{X: substExpr(x.X, sub, suffix), Sel: x.Sel}
+	case *ast.IndexExpr:
+		return &ast.IndexExpr{X: substExpr(x.X, sub, suffix), Index: substExpr(x.Index, sub, suffix)}
+	case *ast.SliceExpr:
+		n := &ast.SliceExpr{X: substExpr(x.X, sub, suffix)}
+		if x.Low != nil {
+			n.Low = substExpr(x.Low, sub, suffix)
+		}
+		if x.High != nil {
+			n.High = substExpr(x.High, sub, suffix)
+		}
+		return n
+	case *ast.TypeAssertExpr:
+		return &ast.TypeAssertExpr{X: substExpr(x.X, sub, suffix), Type: x.Type}
+	case *ast.CallExpr:
+		fn := exprString(x.Fun)
+		n := &ast.CallExpr{Fun: x.Fun}
+		inner := sub
+		start := 0
+		switch fn {
+		case "forall", "exists", "forallk", "existsk":
+			if id, ok := x.Args[0].(*ast.Ident); ok {
+				nn := &ast.Ident{Name: id.Name + suffix}
+				inner = map[string]ast.Expr{}
+				for k, v := range sub {
+					inner[k] = v
+				}
+				inner[id.Name] = nn
+				n.Args = append(n.Args, nn)
+				start = 1
+				if fn == "forallk" || fn == "existsk" {
+					// second argument is a type
+					n.Args = append(n.Args, x.Args[1])
+					start = 2
+				}
+			}
+		case "typeis":
+			n.Args = append(n.Args, substExpr(x.Args[0], sub, suffix), x.Args[1])
+			return n
+		case "preserved", "unchanged":
+			return x
+		}
+		for _, a := range x.Args[start:] {
+			n.Args = append(n.Args, substExpr(a, inner, suffix))
+		}
+		return n
+	}
+	return e
 }
